@@ -59,17 +59,24 @@ theorem tables_basic_codes :
     basicErrorAsRef.arms.lookup "InvalidScope" = some "invalid_scope" := by
   refine ⟨?_, ?_, ?_, ?_, ?_, ?_, ?_, ?_, ?_, ?_, ?_, ?_⟩ <;> decide
 
-/-- `DeviceCodeErrorResponseType`: the basic table is consulted first; only its `Extension(text)` result is
-matched against the four RFC 8628 codes; everything else is wrapped in `Basic(..)` unchanged.  None of the
-four codes is shadowed by a basic code. -/
+/-- the two ways an extending enum may combine its own codes with the basic table: the basic table first and only
+its fall-through variant's text matched against the own codes (unrecognised text re-wrapped), or the own codes
+first and everything else handed to the basic table.  Both are the same function provided no own code is a
+basic code (stated next to each use). -/
+def extendsBasic (t : FromStr) : Bool :=
+  t.delegate == some "BasicErrorResponseType" &&
+  ((!t.ownFirst && t.onVariant == some basicErrorFromStr.fallback && t.innerDefaultRewraps) ||
+   (t.ownFirst && t.onVariant == none))
+
+/-- `DeviceCodeErrorResponseType`: the four RFC 8628 codes on top of the basic table (`extendsBasic`); everything
+else is wrapped in `Basic(..)` unchanged.  None of the four codes is shadowed by a basic code. -/
 theorem tables_device :
     deviceErrorFromStr.arms.Perm rfc8628 ∧
-    deviceErrorFromStr.delegate = some "BasicErrorResponseType" ∧
-    deviceErrorFromStr.onVariant = some basicErrorFromStr.fallback ∧
-    deviceErrorFromStr.fallback = "Basic" ∧ deviceErrorFromStr.innerDefaultRewraps = true ∧
+    extendsBasic deviceErrorFromStr = true ∧
+    deviceErrorFromStr.fallback = "Basic" ∧
     deviceErrorAsRef.arms.Perm (swap rfc8628) ∧ deviceErrorAsRef.passthrough = [("Basic", "delegate")] ∧
     (∀ p ∈ deviceErrorFromStr.arms, basicErrorFromStr.arms.lookup p.1 = none) := by
-  refine ⟨?_, ?_, ?_, ?_, ?_, ?_, ?_, ?_⟩ <;> decide
+  refine ⟨?_, ?_, ?_, ?_, ?_, ?_⟩ <;> decide
 
 theorem tables_device_codes :
     deviceErrorFromStr.arms.lookup "authorization_pending" = some "AuthorizationPending" ∧
@@ -85,14 +92,13 @@ theorem tables_device_codes :
 /-- `RevocationErrorResponseType`: basic table first, then `unsupported_token_type`. -/
 theorem tables_revocation :
     revocationErrorFromStr.arms.Perm rfc7009 ∧
-    revocationErrorFromStr.delegate = some "BasicErrorResponseType" ∧
-    revocationErrorFromStr.onVariant = some basicErrorFromStr.fallback ∧
-    revocationErrorFromStr.fallback = "Basic" ∧ revocationErrorFromStr.innerDefaultRewraps = true ∧
+    extendsBasic revocationErrorFromStr = true ∧
+    revocationErrorFromStr.fallback = "Basic" ∧
     revocationErrorAsRef.arms.Perm (swap rfc7009) ∧ revocationErrorAsRef.passthrough = [("Basic", "delegate")] ∧
     (∀ p ∈ revocationErrorFromStr.arms, basicErrorFromStr.arms.lookup p.1 = none) ∧
     revocationErrorFromStr.arms.lookup "unsupported_token_type" = some "UnsupportedTokenType" ∧
     revocationErrorAsRef.arms.lookup "UnsupportedTokenType" = some "unsupported_token_type" := by
-  refine ⟨?_, ?_, ?_, ?_, ?_, ?_, ?_, ?_, ?_, ?_⟩ <;> decide
+  refine ⟨?_, ?_, ?_, ?_, ?_, ?_, ?_, ?_⟩ <;> decide
 
 /-- `BasicTokenType` -/
 theorem tables_token_type :
